@@ -773,6 +773,162 @@ def r8(ctx, R):
     check_immediate_results(ctx, R, "C03.R8", [ctx.m.funcs[q] for q in sorted(idx) if not ctx.m.funcs[q].rel.endswith("debug.py")])
 
 
+# ------------------------------------------------------------------- R9
+def _config_values_raw(ctx, param):
+    """Do values of the configuration file reach the table parameter unconverted?
+    True / False / None (not derived)."""
+    verdict = None
+    for f in ctx.m.funcs.values():
+        for st in ctx.m.walk_own(f.node):
+            if isinstance(st, ast.Assign) and any(isinstance(t, ast.Attribute) and t.attr == param for t in st.targets):
+                v = st.value
+                if isinstance(v, ast.Call) and isinstance(v.func, ast.Attribute) and v.func.attr == "get" and v.args and isinstance(v.args[0], ast.Constant) and v.args[0].value == param:
+                    return True
+                if isinstance(v, ast.DictComp) and any(isinstance(x, ast.Call) and isinstance(x.func, ast.Name) and x.func.id == "str" for x in ast.walk(v.value)):
+                    verdict = False if verdict is None else verdict
+    return verdict
+
+
+def r9(ctx, R):
+    R.rule("C03.R9", "macro-table values (text, (args, body) tuples, anything from the JSON configuration) are used as text only where their kind is established: converted, or narrowed by a type test on every path", floor=2, confirmed=3)
+    from .c08 import pp_func
+    from .kinds import ALL, KindAnalysis, N, O, S, State, T, U
+
+    f = pp_func(ctx)
+    ret = next((r for r in f.node.body if isinstance(r, ast.Return) and isinstance(r.value, ast.Tuple) and len(r.value.elts) == 4), None)
+    if ret is None or not isinstance(ret.value.elts[3], ast.Name):
+        R.undecided("C03.R9", f.short, "macro table", loc(f, f.node), "the working table (4th element of the result) was not identified")
+        return
+    table = ret.value.elts[3].id
+    param = next((p for p in f.params if "def" in p), None)
+    fam = [g for g in ctx.m.funcs.values() if g.qual == f.qual or g.qual.startswith(f.qual + ".")]
+    # which names denote the table in each function of the family
+    tables = {f.qual: {table}}
+    for _ in range(4):
+        for g in fam:
+            if g is f:
+                continue
+            outer = ctx.m.funcs.get(g.qual.rsplit(".", 1)[0])
+            names = set(tables.get(outer.qual, set())) - set(g.params) if outer is not None else set()
+            sites = [(h, c) for h in fam for c in calls_in(h.node) if ctx.m.enclosing_func(c) is h and g.qual in ctx.r.resolve_call(h, c)[1]]
+            for i, p in enumerate(g.params):
+                passed = []
+                for h, c in sites:
+                    a = c.args[i] if len(c.args) > i else next((kw.value for kw in c.keywords if kw.arg == p), None)
+                    passed.append(isinstance(a, ast.Name) and a.id in tables.get(h.qual, set()))
+                if passed and all(passed):
+                    names.add(p)
+            tables[g.qual] = names
+    # entry kinds of the table
+    probe = KindAnalysis(ctx, f.node, {table}, ALL, None)
+    ds = [v for st, v in defs_of(ctx, f, table) if ctx.m.enclosing_func(st) is f and isinstance(ctx.m.parent.get(st), ast.FunctionDef)]
+    raw = _config_values_raw(ctx, param)
+    entry = None
+    if len(ds) >= 1:
+        v0 = ds[0]
+        if isinstance(v0, ast.DictComp) and len(v0.generators) == 1 and isinstance(v0.generators[0].target, ast.Tuple) and len(v0.generators[0].target.elts) == 2 and unparse(v0.generators[0].iter) == f"{param}.items()" and isinstance(v0.generators[0].target.elts[1], ast.Name):
+            vn = v0.generators[0].target.elts[1].id
+            entry = probe.kinds(v0.value, State([(vn, frozenset(ALL))]))[0]
+        elif unparse(v0) in (f"{param}.copy()", f"dict({param})", f"{{**{param}}}", param, f"copy.copy({param})", f"copy.deepcopy({param})"):
+            entry = set(ALL)
+    if entry is None:
+        R.undecided("C03.R9", f.short, f"{table} initialised from {param}", loc(f, ds[0] if ds else f.node), "initialisation of the working table not recognised")
+        return
+    if raw is False:
+        entry = set(entry) - {O}
+    R.notes.append(f"C03.R9: table `{table}` of {f.short}; kinds at entry {sorted(entry)} (S text, T tuple, O other); configuration values reach it unconverted: {raw}; table names per function: { {q.rsplit('.', 1)[-1]: sorted(v) for q, v in tables.items() if v} }")
+    # the cache of compiled patterns, if any
+    cache = None
+    for st in ctx.m.walk_own(f.node):
+        if isinstance(st, ast.Assign) and isinstance(st.targets[0], ast.Subscript) and isinstance(st.targets[0].value, ast.Name):
+            c = st.targets[0].value.id
+            cds = [v for _, v in defs_of(ctx, f, c)]
+            if c != table and len(cds) == 1 and isinstance(cds[0], ast.Dict) and not cds[0].keys and any(isinstance(x.func, ast.Attribute) and x.func.attr == "get" and unparse(x.func.value) == c for x in calls_in(f.node)):
+                cache = c
+    memo = {}
+
+    def make_summaries(caller, tk, depth):
+        def summaries(call, argk):
+            kind_, tg = ctx.r.resolve_call(caller, call)
+            tg = [q for q in tg if q in ctx.m.funcs]
+            if len(tg) != 1 or depth > 2:
+                return None
+            g = ctx.m.funcs[tg[0]]
+            if g.cls or g.qual == f.qual or g.qual == caller.qual:
+                return None
+            sig = (g.qual, tuple(frozenset(k) for k, _ in argk))
+            if sig not in memo:
+                memo[sig] = None
+                init = State([(p, frozenset(k)) for p, (k, ft) in zip(g.params, argk) if ft])
+                an = KindAnalysis(ctx, g.node, tables.get(g.qual, set()), tk, make_summaries(g, tk, depth + 1), init=init).run()
+                falls = not (g.node.body and isinstance(g.node.body[-1], (ast.Return, ast.Raise)))
+                memo[sig] = (frozenset(an.returns | ({N} if falls or not an.returns else set())), an.uses)
+            return memo[sig][0] if memo[sig] else None
+        return summaries
+
+    tk = set(entry)
+    records = []
+    final = {}
+    for _ in range(6):
+        memo.clear()
+        stores, uses, new_records = [], [], []
+        for g in fam:
+            an = KindAnalysis(ctx, g.node, tables.get(g.qual, set()), tk, make_summaries(g, tk, 0), cache_records=records, cache_name=cache if g is f else None)
+            try:
+                an.run()
+            except RuntimeError:
+                R.undecided("C03.R9", g.short, "kind analysis", loc(g, g.node), "state explosion")
+                continue
+            stores += [(g, n_, k, imp) for n_, k, imp in an.stores]
+            uses += [(g, e, what, k, imp) for e, what, k, imp in an.uses]
+            new_records += an.new_records
+        for sig, v in memo.items():
+            if v:
+                g = ctx.m.funcs[sig[0]]
+                uses += [(g, e, what, k, imp) for e, what, k, imp in v[1]]
+        ntk = set(tk)
+        for g, n_, k, imp in stores:
+            ntk |= set(k)
+        nrec = sorted({(a, tuple(sorted(b.items())), c, d) for a, b, c, d in new_records})
+        nrec = [(a, dict(b), c, d) for a, b, c, d in nrec]
+        final = {"stores": stores, "uses": uses}
+        if ntk == tk and nrec == records:
+            break
+        tk, records = ntk, nrec
+    if U in tk:
+        R.undecided("C03.R9", f.short, "kinds stored into the table", loc(f, f.node), "a value stored into the table has no derived kind")
+    # report per use site
+    by_site = {}
+    for g, e, what, k, imp in final["uses"]:
+        by_site.setdefault((g.qual, id(e)), (g, e, what, []))[3].append((k, imp))
+    names = {S: "text", T: "an (args, body) tuple", O: "a non-text value from the configuration", N: "None"}
+    for (q, _), (g, e, what, obs) in sorted(by_site.items(), key=lambda kv: (kv[0][0], getattr(kv[1][1], "lineno", 0))):
+        st = ctx.m.enclosing_stmt(e) if e in ctx.m.parent else None
+        k_ = f"{unparse(e)[:40]} {what}"
+        where = loc(g, e)
+        precise_bad = set()
+        for k, imp in obs:
+            if not imp:
+                precise_bad |= set(k) - {S, U}
+        imprecise_bad = any((set(k) - {S, U}) for k, imp in obs if imp)
+        if precise_bad - ({O} if raw is None else set()):
+            bad = precise_bad - ({O} if raw is None else set())
+            R.violation("C03.R9", g.short, k_, where, f"`{unparse(e)[:50]}` is {what} although it can be {' or '.join(names[b] for b in sorted(bad))} here: TypeError/AttributeError leaves parse() and the file is not indexed")
+        elif precise_bad or imprecise_bad:
+            R.undecided("C03.R9", g.short, k_, where, "kind of the value not established on a path that could not be analysed precisely (uncorrelated cache entry / provenance of configuration values)")
+        elif all(U in k for k, imp in obs):
+            R.observe("C03.R9", g.short, k_, where, "kind not derived") if hasattr(R, "observe") else None
+        else:
+            R.ok("C03.R9", g.short, k_, where, "text on every analysed path")
+    # conversions wrapped around a table value count as instances too
+    for g in fam:
+        for c in calls_in(g.node):
+            if isinstance(c.func, ast.Name) and c.func.id == "str" and c.args and ctx.m.enclosing_func(c) is g:
+                a = c.args[0]
+                if (isinstance(a, ast.Subscript) and isinstance(a.value, ast.Name) and a.value.id in tables.get(g.qual, set())) or (isinstance(a, ast.Name) and any(isinstance(v, ast.Subscript) and isinstance(v.value, ast.Name) and v.value.id in tables.get(g.qual, set()) for v in reaching_defs(ctx, g, c, a.id) if isinstance(v, ast.AST))):
+                    R.ok("C03.R9", g.short, f"{unparse(c)[:50]} converted", loc(g, c), "table value converted to text before use")
+
+
 def run(ctx, R):
     r1(ctx, R)
     r2(ctx, R)
@@ -782,3 +938,4 @@ def run(ctx, R):
     r6(ctx, R)
     r7(ctx, R)
     r8(ctx, R)
+    r9(ctx, R)
